@@ -372,10 +372,11 @@ def make_assembly(rng, thorough):
                 extra = [rng.choice(hidden_pool)]   # declared, never output
             m = S.FunMachine(reads + hid, outs + hid, rng.randrange(1000),
                              modulus=rng.choice([2, 3, 4]), extra_vars=extra,
-                             ranges=ranges)
+                             ranges=ranges,
+                             refuse=rng.choice([None, None, None, 3, 5]))
             desc.append(dict(name=n, kind='FunMachine', reads=m.reads,
                              outputs=m.outputs, salt=m.salt,
-                             modulus=m.modulus, extra=extra,
+                             modulus=m.modulus, extra=extra, refuse=m.refuse,
                              ranges={k: list(v) for k, v in ranges.items()}))
         machines[n] = S.Logged(m, 'stepper' if isinstance(
             m, steps.AutomatonStepper) else 'machine')
@@ -758,7 +759,7 @@ def rebuild_assembly(desc):
         elif d['kind'] == 'FunMachine':
             hid = [k for k in d['outputs'] if k.startswith('_')]
             m = S.FunMachine([], [], d['salt'], d['modulus'], d['extra'],
-                             ranges=d.get('ranges'))
+                             ranges=d.get('ranges'), refuse=d.get('refuse'))
             m.reads, m.outputs = list(d['reads']), list(d['outputs'])
             m.vars = {k: dict(type='int', dom=(0, d['modulus'] - 1))
                       for k in m.reads + m.outputs + list(d['extra'])}
@@ -783,6 +784,13 @@ F9_CASES = [
 ]
 
 
+def rebuildable(case):
+    return bool(case) and all(
+        m.get('kind') in ('Scheduler', 'FunMachine')
+        for m in case.get('machines', []) if isinstance(m, dict)) and all(
+        isinstance(m, dict) for m in case.get('machines', []))
+
+
 def check_desc(desc):
     case = rebuild_assembly(desc)
     if case is None:
@@ -802,6 +810,25 @@ def search(ctx, broken, mismatches):
                                or (m.case or {}).get('result'),
                                replay_cmd='./check C19 --replay <this file>'))
     if out:
+        out.sort(key=lambda f: 0 if rebuildable(f.case) else 1)
+        if not rebuildable(out[0].case):
+            # look for the same kind of failure on an assembly of hand-made
+            # machines only, which the replay command can rebuild
+            for _ in range(400):
+                case = make_assembly(ctx.rng, False)
+                cj = asm_case_json(case, 0)
+                if not rebuildable(cj):
+                    continue
+                k = ctx.rng.randint(1, 8)
+                result, done = run_assembly(case, k)
+                fs = oracle_assembly(case, result, done)
+                if fs:
+                    w, c = fs[0]
+                    out.insert(0, Failing(
+                        w, dict(asm_case_json(case, k), **c),
+                        expected=c.get('required'), got=c.get('local_state'),
+                        replay_cmd='./check C19 --replay <this file>'))
+                    break
         return shrink_all(out)
     # fixed adversarial scenarios, then fresh random ones
     for desc in F9_CASES:
@@ -891,6 +918,10 @@ def replay(path):
     d = json.load(open(path))
     case = d.get('input') or d.get('case')
     if case and 'machines' in case:
+        if not rebuildable(case):
+            print('this assembly contains a synthesized stepper and cannot be '
+                  'rebuilt from the file: re-run ./check C19 with the same seed')
+            return 2
         r = check_desc(dict(names=case['names'], machines=case['machines'],
                             steps=case['steps']))
         if r:
